@@ -51,6 +51,13 @@ func (st *c17State) note(w *World, sa int, sd string, negative bool) {
 	k := fmt.Sprintf("%d/%s", sa, sd)
 	if st.opsOn[k] >= 2 && st.negOn[k] >= 1 {
 		w.nontriv = true
+		w.stats.inc("probe_operation_compared_after_a_rejected_or_failed_one")
+	}
+	if st.opsOn[k] == 32 {
+		w.stats.inc("probe_object_history_reached_32_operations")
+	}
+	if st.opsOn[k] == 256 {
+		w.stats.inc("probe_object_history_reached_256_operations")
 	}
 	st.opsOn[k]++
 	if negative {
